@@ -21,6 +21,13 @@ def comp(name, cmd, **kw):
     return d
 
 
+def tool_leg(name, tool, kind, cmd, builds, **kw):
+    """supplementary sanitizer leg (thorough tier only); never needed for a verdict"""
+    d = {"name": name, "kind": kind, "cmd": cmd, "tool": tool, "tiers": ("thorough",), "builds": {"quick": [], "thorough": builds}, "timeout": {"thorough": 5400}}
+    d.update(kw)
+    return d
+
+
 def full(name, cmd, q=FULL_SHIPPED, t=FULL_ALL, **kw):
     d = {"name": name, "kind": "full", "cmd": cmd, "builds": {"quick": q, "thorough": t}, "repo_arg": True}
     d.update(kw)
@@ -33,7 +40,7 @@ PROPS["C04"] = {
     "level": "exploration",
     "technique": "runtime differential monitor: real vector_commitment_decommit vs an independent Merkle prover model, exhaustive small shapes + randomized large/sparse trees + single-position fault injection",
     "rule": "cases = (hash build, height, friendly-layer count, leaf contents, sorted distinct query set[, one corruption]); heights 0..=3 (quick) / 0..=4 (thorough) x n_friendly 0..=h+1 x every non-empty query subset are enumerated, plus random full trees (h<=12) and sparse default-leaf trees (h<=64); a case is non-trivial when the tree has at least one hash layer; distinct = distinct (shape, queries, root, corruption label)",
-    "legs": [comp("merkle", "merkle")],
+    "legs": [comp("merkle", "merkle"), tool_leg("miri", "miri", "comp", "mini", [("keccak_160_lsb",), ("blake2s_248_lsb",)], shards=8)],
     "required_counters": ["honest_accepted", "corrupt_rejected", "layers.mixed"],
     "assumptions": TRUSTED[:1] + ["index corruptions are only counted when the corrupted claim is false (sparse trees repeat default leaves)"],
 }
@@ -42,7 +49,7 @@ PROPS["C05"] = {
     "level": "exploration",
     "technique": "runtime differential monitor: real table_decommit vs an independent table-commitment model (Montgomery rows, row-hash rule), randomized shapes + single-cell fault injection",
     "rule": "cases = (hash build, columns in {1..16,32,128}, height, friendly-layer count on both sides of height+1, rows, query set[, one corruption]); corruptions: every cell +1/random (<=64 cells sampled per instance), cells swapped across rows / columns, cell removed/appended, declared column count changed, commitment built without the Montgomery factor; distinct = distinct (shape, queries, root, corrupted values)",
-    "legs": [comp("table", "table")],
+    "legs": [comp("table", "table"), tool_leg("miri", "miri", "comp", "mini", [("keccak_248_lsb",), ("blake2s_160_lsb",)], shards=8)],
     "required_counters": ["honest_accepted", "corrupt_rejected", "rowhash.single_column_unhashed", "rowhash.row_poseidon", "rowhash.row_masked_hash"],
     "assumptions": TRUSTED[:1],
 }
@@ -70,8 +77,9 @@ PROPS["C08"] = {
     "technique": "runtime trace monitor: random operation histories on the real Transcript checked against a sponge model (state after every op, every challenge, the hook's event chain) with metamorphic dependence checks",
     "rule": "cases = histories of 1..=64 operations over read_felt / read_felt_vector(0..=300) / read_u64 / squeeze / squeeze_n / new_with_counter from random and extreme seeds; non-trivial = at least one absorb and one squeeze; distinct = distinct (seed, op list)",
     "legs": [comp("transcript", "transcript", builds={"quick": COMP_Q[:1], "thorough": COMP_Q[:1]}),
-             full("recorded", "recorded", t=FULL_SHIPPED)],
-    "required_counters": ["squeezes_compared", "hook_events", "metamorphic_pairs", "recorded_transcripts_equal", "grammar_ok"],
+             full("recorded", "recorded", t=FULL_SHIPPED),
+             full("protocol", "protocol", t=FULL_SHIPPED)],
+    "required_counters": ["squeezes_compared", "hook_events", "metamorphic_pairs", "recorded_transcripts_equal", "grammar_ok", "grammar_ok.surplus", "grammar_ok.mutant"],
     "assumptions": TRUSTED[:1],
 }
 
@@ -119,7 +127,9 @@ PROPS["C18"] = {
     "level": "fault_enumeration",
     "technique": "runtime crash monitor: structural malformations of accepted proofs run through the real StarkProof::verify and the three standalone validation entry points under a panic hook + catch_unwind, in crash-isolated worker processes with an address-space limit and CPU watchdog; panics are bucketed by (file, source line text, message class)",
     "rule": "for each honest proof (quick: one per shipped build; thorough: all 26): every vector truncated to 0/1/len-1, extended, rotated; same-typed vectors swapped; every config / public-input number (and a sample of all other numbers) set to each of {0,1,2^16,2^32,2^40,2^63,2^64-1,2^64,2^128,2^250,p-2,p-1}; typed group edits (hostile value with dependent fields re-declared consistently); random pairs and triples of these; a case is non-trivial when the edited proof is well-typed and differs from the original",
-    "legs": [full("malformed", "malformed", t=FULL_SHIPPED, sharded=True, timeout={"quick": 1500, "thorough": 14000})],
+    "legs": [full("malformed", "malformed", t=FULL_SHIPPED, sharded=True, timeout={"quick": 1500, "thorough": 14000}),
+             tool_leg("memcheck", "valgrind", "full", "malformed", FULL_ONE, shards=16, of=40),
+             tool_leg("asan", "asan", "full", "malformed", FULL_ONE, shards=16, of=16)],
     "required_counters": ["outcome.error_value", "standalone.StarkConfig::validate"],
     "min_evaluations": {"quick": 1000, "thorough": 50000},
     "assumptions": TRUSTED + ["well-typed = deserialises into the verifier's StarkProof type"],
